@@ -332,6 +332,12 @@ def defects(g, rng):
     d = base("ref"); d.args = []; d.body = " { a: i32 }"; out.append(("struct_fields", d))
     d = base("noref"); d.body = "(i32);"; out.append(("struct_fields", d))
     d = base("ref"); d.args = []; d.generics = "<T>"; d.body = " {}"; out.append(("generics", d))
+    # every KIND of generic parameter: lifetimes and const parameters are generic parameters, too
+    for gen_ in ("<'a>", "<'a, 'b>", "<const N: usize>", "<'a, T>", "<T: Copy>"):
+        d = base(rng.choice(["ref", "noref"])); d.args = []; d.generics = gen_; d.body = " {}"; out.append(("generics", d))
+    # every KIND of fields: tuple structs have fields as well
+    for body_ in ("(i32);", "(pub AmountT, pub u8);"):
+        d = base(rng.choice(["ref", "noref"])); d.args = []; d.body = body_; out.append(("struct_fields", d))
     d = base("ref"); d.args = []; d.item_kind = "enum"; out.append(("not_a_struct", d))
     d = base("noref"); d.item_kind = "fn"; out.append(("not_a_struct", d))
     # 10 derivation argument
